@@ -12,7 +12,7 @@ import time
 
 VERIF = os.path.dirname(os.path.dirname(os.path.abspath(__file__)))
 REPO = os.environ.get("H2T_REPO", "/repo")
-CACHE = os.path.join(VERIF, ".cache")
+CACHE = os.environ.get("H2T_CACHE", os.path.join(VERIF, ".cache"))
 
 
 # --------------------------------------------------------------------------------------------
@@ -444,6 +444,8 @@ class Body:
                         out.add(("fnconst", k["fn"]["def"]))
                     if "promoted" in k:
                         out.add(("promoted", k["promoted"]))
+                        for cv in self.promoted_consts(k["promoted"]):
+                            out.add(("const", cv))
 
         if isinstance(start, int):
             work.append(start)
@@ -508,6 +510,20 @@ class Body:
                 push_op(o)
         elif "repeat" in rv:
             push_op(rv["repeat"])
+
+    def promoted_consts(self, i):
+        """constant texts appearing in promoted body i of this function (e.g. the "id" in `&"id"`)."""
+        out = []
+        proms = self.raw.get("promoted") or []
+        if i < len(proms):
+            for blk in proms[i]["blocks"]:
+                for st in blk["stmts"]:
+                    rv = st.get("rv") or {}
+                    for o in _rv_ops(rv):
+                        k = op_const(o)
+                        if k is not None:
+                            out.append(k.get("v", ""))
+        return out
 
     def has_partial_writes(self, l):
         for rec in self.defs().get(l, ()):
@@ -965,3 +981,173 @@ def _rv_ops(rv):
 
 class AnchorMissing(Exception):
     """A code anchor a rule depends on is gone: the rule fails closed."""
+
+
+# --------------------------------------------------------------------------------------------
+# small path-sensitive feasibility analysis (drop flags + enum discriminants)
+# --------------------------------------------------------------------------------------------
+def _refine(d, vals=None, notvals=None):
+    """d: None (unknown) | ('in', fs) | ('notin', fs).  Returns refined d or 'EMPTY'."""
+    if vals is not None:
+        vs = frozenset(vals)
+        if d is None:
+            return ("in", vs)
+        if d[0] == "in":
+            r = d[1] & vs
+        else:
+            r = vs - d[1]
+        return ("in", r) if r else "EMPTY"
+    ns = frozenset(notvals)
+    if d is None:
+        return ("notin", ns)
+    if d[0] == "in":
+        r = d[1] - ns
+        return ("in", r) if r else "EMPTY"
+    return ("notin", d[1] | ns)
+
+
+def flag_locals(b):
+    """bool locals that are only ever assigned constants (drop flags and similar)."""
+    out = set()
+    for l, recs in b.defs().items():
+        if b.local_ty(l) != "bool" or not recs:
+            continue
+        okc = True
+        for r in recs:
+            if r[0] != "stmt" or r[3]["k"] != "assign" or r[3]["lhs"]["p"]:
+                okc = False
+                break
+            rv = r[3]["rv"]
+            if "use" not in rv or op_const(rv["use"]) is None:
+                okc = False
+                break
+        if okc:
+            out.add(l)
+    return out
+
+
+def feasible_states(b, target_bb, flags=None, discr_locals=None, max_states=20000):
+    """Forward exploration from entry of abstract states (values of `flags`, discriminant knowledge
+    of `discr_locals`); returns the set of states that can reach target_bb (empty = infeasible).
+    If flags/discr_locals are None they are derived from the switches the target is (transitively)
+    control dependent on."""
+    if flags is None or discr_locals is None:
+        fl, dl = set(), set()
+        allflags = flag_locals(b)
+        for (a, s) in b.cdeps_transitive(target_bb):
+            neg, src = b.switch_source(a)
+            if src[0] == "place" and is_bare(src[1]) and src[1]["l"] in allflags:
+                fl.add(src[1]["l"])
+            elif src[0] == "discr" and is_bare(src[1]):
+                dl.add(src[1]["l"])
+        flags = fl if flags is None else flags
+        discr_locals = dl if discr_locals is None else discr_locals
+    flags = sorted(flags)
+    dls = sorted(discr_locals)
+    # which blocks (re)define a discr local
+    init = (tuple([None] * len(flags)), tuple([None] * len(dls)))
+    seen = {}
+    work = [(0, init)]
+    reached = set()
+    n = 0
+    while work:
+        bb, st = work.pop()
+        key = (bb, st)
+        if key in seen:
+            continue
+        seen[key] = True
+        n += 1
+        if n > max_states:
+            return {"OVERFLOW"}
+        if bb == target_bb:
+            reached.add(st)
+        fv = list(st[0])
+        dv = list(st[1])
+        for s_ in b.stmts(bb):
+            if s_["k"] == "assign":
+                l = s_["lhs"]["l"]
+                if not s_["lhs"]["p"]:
+                    if l in flags:
+                        k = op_const(s_["rv"].get("use")) if "use" in s_["rv"] else None
+                        fv[flags.index(l)] = (k.get("int") if k else None)
+                    if l in dls:
+                        rv = s_["rv"]
+                        if rv.get("agg") == "adt" and "vi" in rv:
+                            dv[dls.index(l)] = ("in", frozenset([_discr_of(b, rv)]))
+                        else:
+                            dv[dls.index(l)] = None
+                elif l in dls and not any(isinstance(e, dict) and "dc" in e for e in s_["lhs"]["p"]):
+                    pass
+                rv = s_["rv"]
+                if "ref" in rv and rv.get("mut") and rv["ref"]["l"] in dls and not rv["ref"]["p"]:
+                    dv[dls.index(rv["ref"]["l"])] = None
+            elif s_["k"] == "setdiscr" and s_["lhs"]["l"] in dls and not s_["lhs"]["p"]:
+                dv[dls.index(s_["lhs"]["l"])] = None
+        t = b.term(bb)
+        k = t["k"]
+        if k == "call" and not t["dest"]["p"] and t["dest"]["l"] in dls:
+            dv[dls.index(t["dest"]["l"])] = None
+        if k == "switch":
+            neg, src = b.switch_source(bb)
+            handled = False
+            if src[0] == "place" and is_bare(src[1]) and src[1]["l"] in flags:
+                i = flags.index(src[1]["l"])
+                handled = True
+                for s2 in b.succ(bb):
+                    vals = [v for v, tb in t["targets"] if tb == s2]
+                    listed = [v for v, _ in t["targets"]]
+                    cur = fv[i]
+                    if cur is not None:
+                        eff = (1 - cur) if neg else cur
+                        if (eff in vals) or (not vals and t["otherwise"] == s2 and eff not in listed) or \
+                                (vals and t["otherwise"] == s2 and eff not in listed):
+                            work.append((s2, (tuple(fv), tuple(dv))))
+                    else:
+                        # refine
+                        if vals and len(vals) == 1 and t["otherwise"] != s2:
+                            nf = list(fv)
+                            nf[i] = (1 - vals[0]) if neg else vals[0]
+                            work.append((s2, (tuple(nf), tuple(dv))))
+                        elif t["otherwise"] == s2 and len(listed) == 1 and listed[0] in (0, 1):
+                            nf = list(fv)
+                            v = 1 - listed[0]
+                            nf[i] = (1 - v) if neg else v
+                            work.append((s2, (tuple(nf), tuple(dv))))
+                        else:
+                            work.append((s2, (tuple(fv), tuple(dv))))
+            elif src[0] == "discr" and is_bare(src[1]) and src[1]["l"] in dls:
+                i = dls.index(src[1]["l"])
+                handled = True
+                listed = [v for v, _ in t["targets"]]
+                for s2 in b.succ(bb):
+                    vals = [v for v, tb in t["targets"] if tb == s2]
+                    nd = "EMPTY"
+                    if vals:
+                        nd = _refine(dv[i], vals=vals)
+                    if t["otherwise"] == s2:
+                        nd2 = _refine(dv[i], notvals=listed)
+                        if nd == "EMPTY":
+                            nd = nd2
+                        elif nd2 != "EMPTY":
+                            nd = dv[i]  # both kinds of edge lead here: no refinement
+                    if nd != "EMPTY":
+                        ndv = list(dv)
+                        ndv[i] = nd
+                        work.append((s2, (tuple(fv), tuple(ndv))))
+            if not handled:
+                for s2 in b.succ(bb):
+                    work.append((s2, (tuple(fv), tuple(dv))))
+        else:
+            for s2 in b.succ(bb):
+                if not b.is_cleanup(s2):
+                    work.append((s2, (tuple(fv), tuple(dv))))
+    return reached
+
+
+def _discr_of(b, rv):
+    a = b.facts.adts.get(rv.get("adt"))
+    if a:
+        for v in a["variants"]:
+            if v["idx"] == rv["vi"]:
+                return v["discr"]
+    return rv["vi"]
